@@ -621,3 +621,64 @@ pub fn %(name)s() {
             out += tmpl % dict(name="c05_%s_%d" % (nm, k), tier="quick", to=900, mem=8, k=k,
                                enc="op::logic::%s" % nm, unw=14, call="andor_case(%d, %s)" % (k, flag))
     return {"c05_op.rs": out}
+
+
+# ------------------------------------------------------------------------------------
+# C02: near-miss families per operator name; object literal shapes
+# ------------------------------------------------------------------------------------
+
+def gen_c02(tier):
+    out = prelude("c02_op.rs")
+    allops = [o for t in OPS for o in OPS[t]]
+    kinds = ["subst", "insert", "delete", "caseflip"]
+    quick = {("var", 1), ("var", 3), ("if", 1), ("missing", 2), ("missing_some", 0), ("==", 1), ("max", 3), ("?:", 0), ("substr", 2), ("!", 1), ("none", 3), ("in", 1)}
+    for o in allops:
+        for ki, kn in enumerate(kinds):
+            if kn == "caseflip" and not any(c.isalpha() for c in o):
+                continue
+            if kn == "delete" and len(o) == 1:
+                pass
+            out += '''
+//@ harness: c02_near_%(id)s_%(kn)s tier=%(tier)s timeout=1200 kind=main mem=10
+//@ encodes: OPERATOR_MAP, LAZY_OPERATOR_MAP, DATA_OPERATOR_MAP (phf lookup incl. SipHash over the edited key)
+//@ bound: every key obtained from "%(o)s" by one %(kn)s at a symbolic position with a symbolic ASCII byte: recognised iff it is itself a documented name
+#[cfg_attr(kani, kani::proof)]
+#[cfg_attr(kani, kani::unwind(%(unw)d))]
+#[cfg_attr(verif_replay, test)]
+pub fn c02_near_%(id)s_%(kn)s() {
+    near_miss("%(o)s", %(ki)d);
+}
+''' % dict(id=opid(o), kn=kn, tier="quick" if (o, ki) in quick else "thorough", o=o, ki=ki, unw=len(o) + 4)
+    docs = ["{}", '{"a": n}', '{"var": "a", "x": null} (two keys, one an operator name)', '{"Var": "a"} (case variant)',
+            '{" var": "a"} (leading whitespace)', '{"var ": "a"} (trailing whitespace)', '{"i": []} (prefix of "if"/"in")']
+    for k in range(7):
+        out += '''
+//@ harness: c02_literal_object_%(k)d tier=%(tier)s timeout=3000 kind=main mem=24
+//@ encodes: Parsed::from_value, Operation/LazyOperation/DataOperation::from_value, op::op_from_map x3 tables, Raw::evaluate
+//@ bound: object %(doc)s: parsed as Raw and evaluates to the very same value (pointer identity), whatever the data
+#[cfg_attr(kani, kani::proof)]
+#[cfg_attr(kani, kani::unwind(8))]
+#[cfg_attr(kani, kani::stub(std::fmt::format, stub_format))]
+#[cfg_attr(verif_replay, test)]
+pub fn c02_literal_object_%(k)d() {
+    object_case(%(k)d);
+}
+''' % dict(k=k, doc=docs[k], tier="quick" if k == 0 else "thorough")
+    nonop = [("OPERATOR_MAP", "Operator", "Cat", "q"), ("LAZY_OPERATOR_MAP", "LazyOperator", " if", "q"), ("DATA_OPERATOR_MAP", "DataOperator", "var ", "q"),
+             ("OPERATOR_MAP", "Operator", "a", "t"), ("OPERATOR_MAP", "Operator", "=", "t"), ("LAZY_OPERATOR_MAP", "LazyOperator", "IF", "t"),
+             ("LAZY_OPERATOR_MAP", "LazyOperator", "reduc", "t"), ("DATA_OPERATOR_MAP", "DataOperator", "vars", "t"), ("DATA_OPERATOR_MAP", "DataOperator", "Missing", "t"),
+             ("OPERATOR_MAP", "Operator", "var", "t"), ("LAZY_OPERATOR_MAP", "LazyOperator", "max", "t"), ("DATA_OPERATOR_MAP", "DataOperator", "if", "t")]
+    for i, (t, ty, key, q) in enumerate(nonop):
+        out += '''
+//@ harness: c02_nonop_%(i)d tier=%(tier)s timeout=900 kind=main mem=8
+//@ encodes: op::op_from_map::<%(ty)s>, %(t)s
+//@ bound: single-key object {%(key)r: [n]}: not dispatched by this table (Ok(None)), so Parsed::from_value falls through to Raw
+#[cfg_attr(kani, kani::proof)]
+#[cfg_attr(kani, kani::unwind(%(unw)d))]
+#[cfg_attr(kani, kani::stub(std::fmt::format, stub_format))]
+#[cfg_attr(verif_replay, test)]
+pub fn c02_nonop_%(i)d() {
+    not_dispatched(&%(t)s, "%(key)s");
+}
+''' % dict(i=i, tier="quick" if q == "q" else "thorough", ty=ty, t=t, key=key, unw=max(len(key) + 2, 4))
+    return {"c02_op.rs": out}
